@@ -553,7 +553,7 @@ class SpecModel:
             if node.id in env:
                 return self.force(env[node.id])
             if node.id in ("list", "range", "len", "all", "any", "int", "bool", "dict", "tuple", "frozenset", "map",
-                           "sorted", "set", "isinstance", "hasattr", "callable", "str", "type"):
+                           "sorted", "set", "isinstance", "hasattr", "callable", "str", "type", "getattr"):
                 return ExternalV("builtins." + node.id)
             if node.id == "any":
                 return ANY
@@ -571,7 +571,14 @@ class SpecModel:
         if isinstance(node, ast.BinOp):
             left, right = ev(node.left), ev(node.right)
             if isinstance(node.op, ast.BitOr) and isinstance(left, DictV) and isinstance(right, DictV):
-                return DictV(left.items + right.items, node, mod)
+                items = list(left.items)
+                for k_, v_, n_ in right.items:
+                    hit = next((i for i, (k0, _v0, _n0) in enumerate(items) if same_key(k0, k_)), None)
+                    if hit is None:
+                        items.append((k_, v_, n_))
+                    else:
+                        items[hit] = (items[hit][0], v_, n_)
+                return DictV(items, node, mod)
             if isinstance(node.op, ast.Add) and isinstance(left, TupleV) and isinstance(right, TupleV):
                 return TupleV(list(left.items) + list(right.items))
             a, b = as_int(left), as_int(right)
@@ -617,6 +624,19 @@ class SpecModel:
                         return Opaque("dict unpacking of non-dict")
                 else:
                     put(ev(k), ev(v), k, False)   # (two literal entries with the same key are both kept: C20 reports them)
+            return DictV(items, node, mod)
+        if isinstance(node, ast.DictComp):
+            try:
+                pairs = self.genexp(node, env, mod, elt=lambda e_: (self._eval(node.key, e_, mod, owner), self._eval(node.value, e_, mod, owner)))
+            except AnalysisError as ex:
+                return Opaque(str(ex)[:80])
+            items = []
+            for k_, v_ in pairs:
+                hit = next((i for i, (k0, _v0, _n0) in enumerate(items) if same_key(k0, k_)), None)
+                if hit is None:
+                    items.append((k_, v_, None))
+                else:
+                    items[hit] = (items[hit][0], v_, None)      # dict semantics: the first position, the last value
             return DictV(items, node, mod)
         if isinstance(node, (ast.Tuple, ast.List)):
             return TupleV([ev(e) for e in node.elts])
@@ -672,6 +692,9 @@ class SpecModel:
             prop = self.property_of("AlgValue", attr)
             if prop is not None:
                 return self.call_value(prop, [base], prop.module)
+            meth = self.method_of("AlgValue", attr)
+            if meth is not None:
+                return BoundV(meth, base)   # a plain method of the value class: evaluated from its source when called
         if isinstance(base, NamedRangeV):
             return BoundV(attr, base)
         if isinstance(base, ExternalV):
@@ -679,6 +702,11 @@ class SpecModel:
         return Opaque(f"attribute .{attr} of {base!r}")
 
     def eval_call(self, node: ast.Call, env, mod, owner):
+        if isinstance(node.func, ast.Attribute) and node.func.attr in ("lower", "upper", "title", "capitalize", "strip") and not node.args \
+                and not node.keywords:
+            b_ = self._eval(node.func.value, env, mod, owner)
+            if isinstance(b_, str):
+                return getattr(b_, node.func.attr)()
         f = self._eval(node.func, env, mod, owner)
         args = []
         for a in node.args:
@@ -733,6 +761,32 @@ class SpecModel:
                 return TupleV(out)
             if f.name == "builtins.int" and len(args) == 1 and not kwargs and as_int(args[0]) is not None:
                 return as_int(args[0])
+            if f.name == "builtins.getattr" and len(args) in (2, 3) and isinstance(args[1], str) and not kwargs:
+                v_ = self.getattr(args[0], args[1], mod, node)
+                return args[2] if isinstance(v_, Opaque) and len(args) == 3 else v_
+            if f.name == "builtins.sorted" and len(args) == 1 and set(kwargs) <= {"key", "reverse"}:
+                items = self.iter_items(args[0])
+                if items is None:
+                    return Opaque("sorted() of an unmodelled iterable")
+
+                def plain(k_):
+                    if isinstance(k_, TupleV):
+                        return tuple(plain(x) for x in k_.items)
+                    if isinstance(k_, str):
+                        return (1, k_)
+                    if as_int(k_) is not None:
+                        return (0, as_int(k_))
+                    raise AnalysisError("sort key is not a number / text / tuple of those")
+                keyf = kwargs.get("key")
+                try:
+                    keys = [plain(self.call_value(keyf, [x], mod) if keyf is not None else x) for x in items]
+                except AnalysisError as ex:
+                    return Opaque(str(ex))
+                rev = kwargs.get("reverse", False)
+                if not isinstance(rev, bool):
+                    return Opaque("sorted(reverse=<computed>)")
+                order = sorted(range(len(items)), key=lambda i_: keys[i_], reverse=rev)
+                return TupleV([items[i_] for i_ in order])
             if f.name == "functools.reduce" and len(args) in (2, 3) and not kwargs and isinstance(args[1], TupleV):
                 fn_, items = args[0], list(args[1].items)
                 if len(args) == 3:
@@ -791,6 +845,8 @@ class SpecModel:
         return Opaque("call " + norm(node.func)[:60])
 
     def call_bound(self, f: "BoundV", args, kwargs, mod):
+        if isinstance(f.self, AlgValueV) and isinstance(f.func, FuncV):
+            return self.call_value(f.func, [f.self] + list(args), f.func.module, kwargs)
         if isinstance(f.self, NamedRangeV):
             if f.func == "by_number" and len(args) == 1 and as_int(args[0]) is not None:
                 nr, n = f.self, as_int(args[0])
@@ -836,10 +892,16 @@ class SpecModel:
                 if d is not None:
                     env[x.arg] = self._eval(d, dict(self.envs.get(f.module.name, {})), f.module, None)
             env.update(zip([x.arg for x in a.args], args))
+            extra = []
             for k, v in (kwargs or {}).items():
                 if k not in params:
-                    return Opaque(f"unexpected keyword {k} for {f.node.name}")
+                    if a.kwarg is None:
+                        return Opaque(f"unexpected keyword {k} for {f.node.name}")
+                    extra.append((k, v, None))
+                    continue
                 env[k] = v
+            if a.kwarg is not None:
+                env[a.kwarg.arg] = DictV(extra, None, f.module)
             if a.vararg:
                 env[a.vararg.arg] = TupleV(list(args[len(a.args):]))
             r = self.exec_body(body, env, f.module)
@@ -878,6 +940,15 @@ class SpecModel:
             if isinstance(c, ClassV) and c.name == clsname:
                 f = c.ns.get(attr)
                 if isinstance(f, FuncV) and any(norm(d) == "property" for d in f.node.decorator_list):
+                    return f
+        return None
+
+    def method_of(self, clsname, attr):
+        for env in self.envs.values():
+            c = env.get(clsname)
+            if isinstance(c, ClassV) and c.name == clsname:
+                f = c.ns.get(attr)
+                if isinstance(f, FuncV) and not f.node.decorator_list:
                     return f
         return None
 
@@ -1005,23 +1076,46 @@ class SpecModel:
             return all(vals) if node.func.id == "all" else any(vals)
         if isinstance(node, ast.IfExp):
             return P(node.body) if P(node.test) else P(node.orelse)
-        if isinstance(node, (ast.Compare, ast.BoolOp, ast.GeneratorExp, ast.IfExp, ast.ListComp)):
+        if isinstance(node, (ast.GeneratorExp, ast.ListComp)):
+            try:
+                return TupleV(self.genexp(node, env, mod))
+            except AnalysisError as ex:
+                return Opaque(str(ex)[:80])
+        if isinstance(node, (ast.Compare, ast.BoolOp, ast.IfExp)):
             return Opaque("unfoldable " + norm(node)[:60])
         return self._eval(node, env, mod, None)
 
-    def genexp(self, node: ast.GeneratorExp, env, mod):
-        if len(node.generators) != 1:
-            raise AnalysisError("nested generator expression in spec predicate")
-        g = node.generators[0]
-        it = self.pure(g.iter, env, mod)
-        if not isinstance(it, TupleV) or not isinstance(g.target, ast.Name):
-            raise AnalysisError(f"{mod.relpath}:{node.lineno}: cannot iterate {norm(g.iter)}")
+    def iter_items(self, it):
+        """the elements iteration over a model value yields, or None: a tuple, a range, the members of an enum class in the
+        order `for m in cls` gives them (inspect.getmembers: by name)"""
+        if isinstance(it, TupleV):
+            return list(it.items)
+        if isinstance(it, RangeV) and it.stop - it.start <= 65536:
+            return list(range(it.start, it.stop))
+        if isinstance(it, DictV):
+            return [k for k, _v, _n in it.items]
+        if isinstance(it, ClassV) and it.has("__tpm_enum__"):
+            return [v for _k, v in self.public_non_routine(it)]
+        return None
+
+    def genexp(self, node, env, mod, elt=None):
+        """values of a generator expression / list comprehension (any number of `for` clauses, plain-name targets)"""
         out = []
-        for x in it.items:
-            e = dict(env)
-            e[g.target.id] = x
-            if all(self.pure(c, e, mod) for c in g.ifs):
-                out.append(self.pure(node.elt, e, mod))
+
+        def rec(i, e):
+            if i == len(node.generators):
+                out.append(elt(e) if elt is not None else self.pure(node.elt, e, mod))
+                return
+            g = node.generators[i]
+            items = self.iter_items(self.pure(g.iter, e, mod))
+            if items is None or not isinstance(g.target, ast.Name):
+                raise AnalysisError(f"{mod.relpath}:{node.lineno}: cannot iterate {norm(g.iter)}")
+            for x in items:
+                e2 = dict(e)
+                e2[g.target.id] = x
+                if all(self.pure(c, e2, mod) for c in g.ifs):
+                    rec(i + 1, e2)
+        rec(0, dict(env))
         return out
 
     # -------------------------------------------------------------- queries
